@@ -152,7 +152,7 @@ def gen_cases(ctx, tier):
                 elif r < 0.12:
                     k += 1
                 args = [rng.choice(pool(formals[i][0] if i < len(formals) else "value")) for i in range(k)]
-                if args:            # the first argument walks through its whole pool
+                if args and formals:            # the first argument walks through its whole pool
                     p0 = pool(formals[0][0])
                     args[0] = p0[(off + it) % len(p0)]
                 names = [formals[i][0] for i in range(k)] if k <= len(formals) else None
